@@ -91,7 +91,7 @@ static int g_stuck_seen = 0; /* after the first stuck wait, later bounds shrink 
 static char g_stuck_marker[4096];
 static double bound_secs(void)
 {
-    return g_stuck_seen ? 0.25 : 4.0;
+    return g_stuck_seen ? 0.25 : 20.0;
 }
 static void note_stuck(void)
 {
@@ -125,6 +125,54 @@ typedef struct {
 } waiter_t;
 static waiter_t g_w[MAXW];
 static int g_nw;
+
+/* kernel thread ids of the extra execution streams (diagnostics only) */
+static int g_es_tid[NES];
+static void record_tid(void *arg)
+{
+    *(int *)arg = (int)syscall(SYS_gettid);
+}
+
+static long task_runtime_ns(int tid)
+{
+    char path[64];
+    long run = -1, wait = 0;
+    sprintf(path, "/proc/self/task/%d/schedstat", tid);
+    FILE *f = fopen(path, "r");
+    if (f) {
+        if (fscanf(f, "%ld %ld", &run, &wait) < 1)
+            run = -1;
+        fclose(f);
+    }
+    return run;
+}
+
+/* why did an execution stream not run a waiter?  distinguishes an execution
+ * stream that got no CPU from the OS from one that is running but not popping */
+static void diag_streams(void)
+{
+    int i;
+    long r0[NES], r1[NES];
+    for (i = 0; i < NES; i++)
+        r0[i] = task_runtime_ns(g_es_tid[i]);
+    struct timespec ts = { 0, 200 * 1000 * 1000L };
+    nanosleep(&ts, NULL);
+    for (i = 0; i < NES; i++)
+        r1[i] = task_runtime_ns(g_es_tid[i]);
+    for (i = 0; i < NES; i++) {
+        ABTI_xstream *x = ABTI_xstream_get_ptr(g_es[i]);
+        ABTI_pool *p = ABTI_pool_get_ptr(g_espool[i]);
+        size_t sz = 0;
+        ABT_pool_get_size(g_espool[i], &sz);
+        fprintf(stderr,
+                "c19 harness:   ES%d tid=%d cpu-time in 200ms: %ld us; xstream state=%d, main sched "
+                "pool[0] %s g_espool, pool size=%zu num_blocked=%d\n",
+                i + 1, g_es_tid[i], (r1[i] - r0[i]) / 1000,
+                (int)ABTD_atomic_acquire_load_int(&x->state),
+                (x->p_main_sched && x->p_main_sched->pools[0] == g_espool[i]) ? "==" : "!=", sz,
+                (int)ABTD_atomic_acquire_load_int32(&p->num_blocked));
+    }
+}
 
 static void waiter_body(void *arg)
 {
@@ -248,6 +296,8 @@ static void diag_stuck(int k, const char *why)
             "mutex_locked=%d bound=%.2f\n",
             k, w->kind ? "ULT" : "pthread", w->timed ? "timed" : "untimed", w->deadline,
             g_now_ticks, why, in_list(k), (int)st, (int)mlocked, bound_secs());
+    if (!g_stuck_seen)
+        diag_streams();
 }
 
 /* wait until waiter k has returned; 0 if it did not within the bound */
@@ -414,7 +464,7 @@ static void do_wl(char *line)
                 pending++;
         if (pending)
             nap_us(200);
-    } while (pending && real_now() - t0 < (g_stuck_seen ? 0.6 : 5.0));
+    } while (pending && real_now() - t0 < (g_stuck_seen ? 0.6 : 20.0));
     printf("WL %s | %s\n", obs, dumps);
     fflush(stdout);
     if (pending) {
@@ -782,7 +832,12 @@ int main(int argc, char **argv)
         if (ABT_xstream_create(ABT_SCHED_NULL, &g_es[i]) != ABT_SUCCESS)
             VH_DIE("xstream create");
         ABT_xstream_get_main_pools(g_es[i], 1, &g_espool[i]);
+        ABT_thread t;
+        ABT_thread_create(g_espool[i], record_tid, &g_es_tid[i], ABT_THREAD_ATTR_NULL, &t);
+        ABT_thread_free(&t);
     }
+    if (getenv("C19_DIAG"))
+        diag_streams();
     char *line;
     while ((line = vh_getline(f)) != NULL) {
         if (line[0] == 'W' && line[1] == 'L')
